@@ -29,6 +29,7 @@ type FuncFacts struct {
 	reach  map[*ssa.BasicBlock]map[*ssa.BasicBlock]bool
 	mp     map[[2]ssa.Instruction]bool
 	infeas map[*ssa.BasicBlock]bool
+	derived map[*ssa.BasicBlock]map[Fact]bool
 }
 
 func (p *Prog) Facts(fn *ssa.Function) *FuncFacts {
@@ -157,12 +158,68 @@ func (ff *FuncFacts) NC(b *ssa.BasicBlock) []Fact {
 			}
 		}
 		for _, x := range inter {
+			n0 := len(out)
 			add(x)
+			if len(out) > n0 {
+				if ff.derived == nil {
+					ff.derived = map[*ssa.BasicBlock]map[Fact]bool{}
+				}
+				if ff.derived[b] == nil {
+					ff.derived[b] = map[Fact]bool{}
+				}
+				ff.derived[b][x] = true
+			}
 		}
 	}
 	delete(ff.busy, b)
 	ff.nc[b] = out
 	return out
+}
+
+// NCv: the necessary conditions of b that may be read as statements about the
+// CURRENT values of their operands.  The facts NC derives from a merged flag
+// ("the flag is set, so at some earlier point hmac.Equal returned true") are
+// statements about an earlier event; they are only kept here when their
+// operands cannot have been evaluated again since (nothing they are computed
+// from lies on a cycle).
+func (ff *FuncFacts) NCv(b *ssa.BasicBlock) []Fact {
+	all := ff.NC(b)
+	d := ff.derived[b]
+	if len(d) == 0 {
+		return all
+	}
+	var out []Fact
+	for _, f := range all {
+		if !d[f] || stableValue(f.Cond, 0) {
+			out = append(out, f)
+		}
+	}
+	return out
+}
+
+// stableValue: v and what it is computed from are evaluated at most once per
+// call of the function (no defining block lies on a cycle).
+func stableValue(v ssa.Value, depth int) bool {
+	if depth > 5 {
+		return false
+	}
+	switch v.(type) {
+	case *ssa.Const, *ssa.Parameter, *ssa.Global, *ssa.FreeVar, *ssa.Function, *ssa.Builtin:
+		return true
+	}
+	in, ok := v.(ssa.Instruction)
+	if !ok {
+		return false
+	}
+	if in.Block() == nil || blockOnCycle(in.Block()) {
+		return false
+	}
+	for _, op := range in.Operands(nil) {
+		if *op != nil && !stableValue(*op, depth+1) {
+			return false
+		}
+	}
+	return true
 }
 
 // flagEdges returns the CFG edges (pred, phiBlock) that feed the constant
@@ -749,7 +806,7 @@ func (ff *FuncFacts) mustPassD(a, b ssa.Instruction, extra []Fact, depth int) bo
 	if !reach(fn.Blocks[0], bb, nil) {
 		res = true
 	} else {
-		facts := append(append([]Fact{}, ff.NC(bb)...), extra...)
+		facts := append(append([]Fact{}, ff.NCv(bb)...), extra...)
 		for _, f := range facts {
 			edges, ok := ff.webEdgesOf(f)
 			if !ok {
@@ -1077,7 +1134,7 @@ func (ff *FuncFacts) Infeasible(b *ssa.BasicBlock) bool {
 	}
 	ff.infeas[b] = false // cycles
 	res := false
-	fs := ff.NC(b)
+	fs := ff.NCv(b)
 	for i, f := range fs {
 		if k, ok := f.Cond.(*ssa.Const); ok && k.Value != nil && k.Value.Kind() == constant.Bool {
 			if constant.BoolVal(k.Value) != f.Pol {
@@ -1236,7 +1293,7 @@ func phiAlias(phi *ssa.Phi) ssa.Value {
 				for j, e := range rp.Edges {
 					if e == ssa.Value(phi) {
 						pred := rp.Block().Preds[j]
-						fs := append([]Fact{}, ff.NC(pred)...)
+						fs := append([]Fact{}, ff.NCv(pred)...)
 						if ef, ok := edgeFact(pred, rp.Block()); ok {
 							fs = append(fs, ef)
 						}
@@ -1244,7 +1301,7 @@ func phiAlias(phi *ssa.Phi) ssa.Value {
 					}
 				}
 			} else {
-				useFacts = append(useFacts, ff.NC(r.Block()))
+				useFacts = append(useFacts, ff.NCv(r.Block()))
 			}
 			for _, factsHere := range useFacts {
 				nuse++
@@ -1323,7 +1380,7 @@ func (ff *FuncFacts) edgeNilState(phi *ssa.Phi, i int) int {
 	if _, isMI := e.(*ssa.MakeInterface); isMI {
 		return 2
 	}
-	fs := append([]Fact{}, ff.NC(pred)...)
+	fs := append([]Fact{}, ff.NCv(pred)...)
 	if ef, ok := edgeFact(pred, phi.Block()); ok {
 		fs = append(fs, ef)
 	}
@@ -1351,7 +1408,7 @@ func (ff *FuncFacts) EdgeInfeasible(pred, blk *ssa.BasicBlock) bool {
 	if k, isC := ef.Cond.(*ssa.Const); isC && k.Value != nil && k.Value.Kind() == constant.Bool {
 		return constant.BoolVal(k.Value) != ef.Pol
 	}
-	for _, g := range ff.NC(pred) {
+	for _, g := range ff.NCv(pred) {
 		if g.Pol != ef.Pol && ff.p.sameCond(g.Cond, ef.Cond, 0) {
 			return true
 		}
